@@ -174,6 +174,9 @@ class Mode(LogMixin):
             # the handlers and devices of the previous run are only removed after mode_<name>_stopped. start as
             # soon as that happened. otherwise, the clean-up would remove what this start registers
             if self._start_after_stop is None:
+                if self.config['mode']['use_wait_queue'] and 'queue' in kwargs:
+                    # the event which asks for this start has to wait from now on, not only once the start is carried out
+                    kwargs['queue'].wait()
                 self._start_after_stop = (mode_priority, callback, kwargs)
             return
 
@@ -195,7 +198,9 @@ class Mode(LogMixin):
 
             self._mode_start_wait_queue = kwargs['queue']
             assert isinstance(self._mode_start_wait_queue, QueuedEvent)
-            self._mode_start_wait_queue.wait()
+            # a start which had to wait for the previous stop is holding its queue already
+            if not self._mode_start_wait_queue.waiter:
+                self._mode_start_wait_queue.wait()
 
         if isinstance(mode_priority, int):
             self.priority = mode_priority
@@ -427,6 +432,11 @@ class Mode(LogMixin):
             mode_priority, callback, start_kwargs = self._start_after_stop
             self._start_after_stop = None
             self.start(mode_priority=mode_priority, callback=callback, **start_kwargs)
+            queue = start_kwargs.get('queue')
+            if self.config['mode']['use_wait_queue'] and queue is not None and queue.waiter and \
+                    queue is not self._mode_start_wait_queue:
+                # the start was refused after all. do not keep its event waiting
+                queue.clear()
 
     def _add_mode_devices(self) -> None:
         """Add and initialize mode devices which get removed at the end of the mode."""
